@@ -29,6 +29,23 @@ CLAIMED = {
          'checked equal to the real _procmat and to the columns the real generate() builds on synthetic EPW headers.',
          'Trusted: Lean kernel, standard axioms, fracexec. Float effects in ceil(droad/0.05) are outside the exact model. '
          'The monthly deep temperature (T5) is checked on real runs, not proved.', 'DESIGN.md section 4 C20'),
+ 'C17': ('Lean 4 theorem over an abstract object machine with uninterpreted physics (induction over operation '
+         'histories), tied to real UWG objects by history-level correspondence of an abstraction plus bitwise differential runs',
+         'Proof: for every history and every machine, generate;simulate gives what a fresh object with the current '
+         'parameters gives. The tie drives the same histories on real objects, compares an abstraction of the library state '
+         'after every operation with the Lean machine, and compares final hourly records and deep state digests with a fresh object.',
+         'Trusted: Lean kernel (no axioms needed beyond propext), the abstraction function in harness/props/c17.py. The '
+         'physics is uninterpreted; that generate() has the modelled shape is checked on generated histories, not proved.',
+         'DESIGN.md section 4 C17'),
+ 'C05': ('Lean 4 non-interference theorem over a world of objects (induction over interleavings, any machine), tied to the '
+         'code by a static frame scan, a dynamic monitor of all package-level state, interleaving correspondence and '
+         'cross-process differential runs',
+         'Proof: in the world machine every interleaving leaves each object in the state its own operations produce. The '
+         'frame condition that links it to the code (operations write only their own object) is checked syntactically on every '
+         'function body and dynamically by digesting all module/class-level data around every operation; outputs of isolated, '
+         'repeated, interleaved and cross-process (different PYTHONHASHSEED) runs are compared byte for byte.',
+         'Trusted: Lean kernel, CPython, pickle, the OS. The theorem is about the abstract machine; its link to the code is '
+         'the frame check.', 'DESIGN.md section 4 C05'),
 }
 NOT_YET = 'check not built yet in this session (work in progress; see DESIGN.md section 4)'
 
